@@ -608,3 +608,16 @@ Definition prepare_error (base ndom : nat) (doms : domtab) (f : frag) : Z :=
   else if existsb (lower_bad base ndom doms)
             (flat_map (fun e => flat_map stmt_all_sigs (snd e)) (flatten f) ++ flat_map mem_all_sigs (frag_mems f))
        then 2 else 0.
+
+(* ---------- auxiliary definitions for the DomainRenamer theorems on fragment trees ---------- *)
+(* the statement dicts of all fragments of a tree *)
+Fixpoint frag_nodes (f : frag) : list (list (dom * list stmt)) :=
+  match f with Frag st _ subs => st :: flat_map frag_nodes subs end.
+(* no fragment has two of its domains renamed onto one, and no empty statement list *)
+Definition no_merge (rho : list (dom * dom)) (f : frag) : Prop :=
+  forall st, In st (frag_nodes f) ->
+    NoDup (map (fun e => rename_dom rho (fst e)) st) /\ (forall e, In e st -> snd e <> []).
+(* every fragment's statement dict has distinct keys and no empty entry *)
+Definition frag_dicts_ok (f : frag) : Prop :=
+  forall st, In st (frag_nodes f) -> NoDup (map fst st) /\ (forall e, In e st -> snd e <> []).
+Definition mem_port_doms (m : meminst) : list dom := map wp_dom (mi_wports m) ++ map rp_dom (mi_rports m).
